@@ -61,6 +61,28 @@ def runSess (args : List String) : Res :=
       { out := s!"S[{j evS}] C[{j evC}] win S.cps={winStr ss.cps} C.dps={winStr ss.dps} C.cps={winStr sc.cps} S.dps={winStr sc.dps}",
         spec := if sync then "ok" else "bad:windows-out-of-sync",
         tags := " ".intercalate tg.eraseDups }
+  | ["multi", _pool, steps] =>
+    -- three connections of one upgrader; connection 1 without context takeover.  Each connection is the
+    -- single-connection model run on its own steps: sharing pooled deflaters must not be observable.
+    let toks := (steps.splitOn ";").map (·.splitOn ":")
+    let conn := fun (k : Nat) =>
+      let cfg : Cfg := { enabled := true, takeover := k != 1, bits := 12, thr := 1 }
+      let mine := toks.filter fun t => t.head? == some (toString k)
+      let ev := fun (p : Bytes) => s!"m{p.length}:{fnv64 p}"
+      let (ss, sc, evS, evC, dead) := mine.foldl (fun (acc : St × St × List String × List String × Bool) t =>
+        let (ss, sc, evS, evC, dead) := acc
+        if dead then acc else
+        match t with
+        | [_, "s", h] => let p := parseHex h; (step cfg ss (.data p), sc, evS, evC ++ [ev p], dead)
+        | [_, "c", h] => let p := parseHex h; (ss, step cfg sc (.data p), evS ++ [ev p], evC, dead)
+        | [_, "bomb"] => (ss, sc, evS ++ ["closed:1011"], evC, true)   -- the inflated size is not visible on the wire: internal error (1011)
+        | _ => acc) (St.init cfg, St.init cfg, [], [], false)
+      let j := fun (l : List String) => if l.isEmpty then "-" else ";".intercalate l
+      -- the peer of a failed connection sees the Close frame: its own close callback
+      let evC := if dead then evC ++ ["closed:nothing"] else evC
+      let win := if dead then "" else s!"win={winStr ss.cps},{winStr ss.dps},{winStr sc.cps},{winStr sc.dps}"
+      s!"{k}:S[{j evS}]C[{j evC}]{win}"
+    { out := " ".intercalate ((List.range 3).map conn), tags := "multi" }
   | ["lim", _, _] =>
     -- C01: a payload within both endpoints' limits is delivered (whatever the compressor makes of it)
     { out := "delivered", tags := "limit-incompressible" }
